@@ -127,6 +127,11 @@ class Extension(ConfiguredBaseModel):
     values: dict[str, ExtensionValue]
     operations: dict[str, OpDef]
 
+    @pd.field_serializer("runtime_reqs")
+    def _serialize_runtime_reqs(self, runtime_reqs: set[ExtensionId]) -> list[str]:
+        # sorted, so that the document does not depend on set iteration order
+        return sorted(runtime_reqs)
+
     @classmethod
     def get_version(cls) -> str:
         return serialization_version()
